@@ -978,9 +978,18 @@ type opRef struct {
 
 type opRefs []opRef
 
-func (o opRefs) Len() int           { return len(o) }
-func (o opRefs) Swap(i, j int)      { o[i], o[j] = o[j], o[i] }
-func (o opRefs) Less(i, j int) bool { return o[i].Key < o[j].Key }
+func (o opRefs) Len() int      { return len(o) }
+func (o opRefs) Swap(i, j int) { o[i], o[j] = o[j], o[i] }
+func (o opRefs) Less(i, j int) bool {
+	if o[i].Key != o[j].Key {
+		return o[i].Key < o[j].Key
+	}
+	// distinct operations may be mangled to the same key: keep their order stable
+	if o[i].Path != o[j].Path {
+		return o[i].Path < o[j].Path
+	}
+	return o[i].Method < o[j].Method
+}
 
 func gatherOperations(specDoc *analysis.Spec, operationIDs []string) map[string]opRef {
 	operationIDs = pruneEmpty(operationIDs)
